@@ -86,6 +86,190 @@ def register(gen, T):
         out.append(desc_table(hb, "hlsl analyse_bindings", "hlsl"))
         out.append(desc_table(mb, "msl analyse_bindings", "msl"))
 
+        # ---- the type peel of both analyse_bindings, of process_definition and of is_buffer_address, read as an ordered
+        # list of peel operations by a small symbolic reader of the `let` statements (variable names do not matter; the
+        # data flow does): every variable holds "decl.type_id after these operations"
+        from rustsrc import matching as _matching, split_top as _split_top
+
+        def top_lets(text):
+            """the `let` statements at bracket depth 0 of a block, in order (normalised text)"""
+            res, depth, i = [], 0, 0
+            while i < len(text):
+                c = text[i]
+                if c in '([{':
+                    depth += 1
+                elif c in ')]}':
+                    depth -= 1
+                elif depth == 0 and text.startswith('let ', i) and (i == 0 or not (text[i - 1].isalnum() or text[i - 1] == '_')):
+                    j, d = i, 0
+                    while j < len(text):
+                        if text[j] in '([{':
+                            d += 1
+                        elif text[j] in ')]}':
+                            d -= 1
+                        elif text[j] == ';' and d == 0:
+                            break
+                        j += 1
+                    res.append(text[i:j].strip())
+                    i = j
+                    continue
+                i += 1
+            return res
+
+        REG = r'(?:&?[A-Za-z_][A-Za-z0-9_\.]*?\.)?'   # `context.module.type_registry.` / `type_registry.` / `self.` / ``
+
+        class Peel:
+            def __init__(self, which, start_var):
+                self.which = which
+                self.env = {start_var: []}
+                self.layers = {}
+                self.count = {}      # count variable -> (expr when an array was taken, expr otherwise)
+                self.sized_only = None
+
+            def bad(self, why):
+                raise ExtractError(f"{self.which}: type peel: {why}")
+
+            def val(self, v):
+                if v not in self.env:
+                    self.bad(f"`{v}` is not a peeled type id")
+                return self.env[v]
+
+            def block(self, text, in_array):
+                """run the statements of a block; returns the trailing expression"""
+                text = text.strip()
+                lets = top_lets(text)
+                for st in lets:
+                    self.stmt(st, in_array)
+                # trailing expression = what follows the last top-level `;`
+                parts = _split_top(text, ';')
+                return parts[-1].strip()
+
+            def array_arm(self, inner, lenpat, scrut_var, arm_text, else_text, x, c):
+                base = self.val(scrut_var)
+                if lenpat in ('len', '_len') or re.fullmatch(r'[a-z_]+', lenpat):
+                    sized = False
+                    lenvar = lenpat
+                elif re.fullmatch(r'Some\(([a-z_]+)\)', lenpat):
+                    sized = True
+                    lenvar = re.fullmatch(r'Some\(([a-z_]+)\)', lenpat).group(1)
+                else:
+                    self.bad(f"array length pattern `{lenpat}`")
+                saved_env = dict(self.env)
+                self.env[inner] = base + [("takeArray", sized)]
+                self.lenexpr = {lenvar: "len" if not sized else "lenValue"}
+                tail = self.block(arm_text.strip().strip('{}').strip() if arm_text.strip().startswith('{') else arm_text, True)
+                tm = re.fullmatch(r'\(\s*([A-Za-z_][A-Za-z0-9_\.]*)\s*,\s*(.+?)\s*\)', tail)
+                if not tm:
+                    self.bad(f"array arm does not end in a pair: `{tail}`")
+                taken_ops = self.val(tm.group(1))
+                taken_count = self.count_expr(tm.group(2))
+                self.env = saved_env
+                em = re.fullmatch(r'\{?\s*\(\s*([A-Za-z_][A-Za-z0-9_\.]*)\s*,\s*(.+?)\s*\)\s*,?\s*\}?', else_text.strip())
+                if not em:
+                    self.bad(f"non-array arm is not a pair: `{else_text}`")
+                if self.val(em.group(1)) != base:
+                    self.bad("non-array arm does not return the type it looked at")
+                self.env[x] = taken_ops
+                self.count[c] = (taken_count, normws(em.group(2)))
+
+            def count_expr(self, e):
+                e = normws(e)
+                if e in self.lenexpr:
+                    return self.lenexpr[e]
+                m = re.fullmatch(r'([a-z_]+)\.map\(\|v\| v as u32\)', e)
+                if m and self.lenexpr.get(m.group(1)) == "len":
+                    return "len as u32"
+                m = re.fullmatch(r'Some\(([a-z_]+)\)', e)
+                if m and self.lenexpr.get(m.group(1)) == "lenValue":
+                    return "Some(lenValue)"
+                return "?" + e
+
+            def stmt(self, st, in_array):
+                m = re.fullmatch(r'let ([a-z_]+) = ' + REG + r'remove_modifier\(([A-Za-z_][A-Za-z0-9_\.]*)\)', st)
+                if m:
+                    self.env[m.group(1)] = self.val(m.group(2)) + [("removeModifierAfterArray",) if in_array else ("removeModifier",)]
+                    return
+                m = re.fullmatch(r'let ([a-z_]+) = ' + REG + r'get_type_layer\(([A-Za-z_][A-Za-z0-9_\.]*)\)', st)
+                if m:
+                    self.layers[m.group(1)] = self.val(m.group(2))
+                    return
+                m = re.fullmatch(r'let \(([a-z_]+), ([a-z_]+)\) = if let (?:ir::)?TypeLayer::Array\(([a-z_]+), ([A-Za-z_\(\)]+)\) = ' + REG +
+                                 r'get_type_layer\(([A-Za-z_][A-Za-z0-9_\.]*)\) (\{.*\}) else (\{.*\})', st)
+                if m:
+                    x, c, inner, lenpat, sv, arm, els = m.groups()
+                    # the first `{..}` group must be balanced
+                    e = _matching(st, st.index(arm))
+                    arm_text = st[st.index(arm):e + 1]
+                    els_text = st[e + 1:].strip()
+                    if not els_text.startswith('else'):
+                        self.bad("if-let without else")
+                    self.array_arm(inner, lenpat, sv, arm_text, els_text[4:].strip(), x, c)
+                    return
+                m = re.fullmatch(r'let \(([a-z_]+), ([a-z_]+)\) = match ' + REG + r'get_type_layer\(([A-Za-z_][A-Za-z0-9_\.]*)\) \{(.*)\}', st)
+                if m:
+                    x, c, sv, arms_text = m.groups()
+                    arms = match_arms(arms_text)
+                    if len(arms) != 2 or arms[1][0] != ['_'] or arms[0][1] is not None or arms[1][1] is not None or len(arms[0][0]) != 1:
+                        self.bad(f"array match has arms {[a[0] for a in arms]}")
+                    pm = re.fullmatch(r'(?:ir::)?TypeLayer::Array\(([a-z_]+), ([A-Za-z_\(\)]+)\)', arms[0][0][0])
+                    if not pm:
+                        self.bad(f"array match pattern `{arms[0][0][0]}`")
+                    self.array_arm(pm.group(1), pm.group(2), sv, arms[0][2], arms[1][2], x, c)
+                    return
+                m = re.fullmatch(r'let ([a-z_]+) = ([a-z_]+)\.map\(\|v\| v as u32\)', st)
+                if m and hasattr(self, 'lenexpr') and self.lenexpr.get(m.group(2)) == "len":
+                    self.lenexpr[m.group(1)] = "len as u32"
+                    return
+                if re.search(r'remove_modifier|get_type_layer|TypeLayer::Array|get_non_array|extract_modifier', st):
+                    self.bad(f"statement not understood: `{st[:120]}`")
+
+        def lean_ops(ops):
+            def one(o):
+                if o[0] == "takeArray":
+                    return ".takeArray " + ("true" if o[1] else "false")
+                return "." + o[0]
+            return T.lean_list(one(o) for o in ops)
+
+        def global_arm(body, which):
+            _, arms_text, _ = first_match(body, r'^decl$')
+            for pats, guard, result in match_arms(arms_text):
+                if any(re.fullmatch(r'(?:ir::)?RootDefinition::GlobalVariable\(id\)', p) for p in pats):
+                    r = result.strip()
+                    return r[1:-1] if r.startswith('{') else r
+            raise ExtractError(f"{which}: GlobalVariable arm not found")
+
+        def run_peel(which, text, start_var, layer_var):
+            pl = Peel(which, start_var)
+            try:
+                pl.block(text, False)
+                if layer_var not in pl.layers:
+                    pl.bad(f"layer variable `{layer_var}` is not read through get_type_layer")
+                return pl.layers[layer_var], pl
+            except ExtractError as e:
+                import sys
+                print(f"MetaTables: {e}", file=sys.stderr)
+                return [("unknown",)], pl
+
+        hops, hpl = run_peel("hlsl analyse_bindings", global_arm(hb, "hlsl analyse_bindings"), "decl.type_id", "type_layer")
+        mops, mpl = run_peel("msl analyse_bindings", global_arm(mb, "msl analyse_bindings"), "decl.type_id", "type_layer")
+        pd = fn_body(ir_module, "process_definition")
+        aops, apl = run_peel("process_definition", global_arm(pd, "process_definition"), "decl.type_id", "unmodified_tyl")
+        iba_text = normws(fn_body(ir_types, "is_buffer_address"))
+        bops, bpl = run_peel("is_buffer_address", iba_text, "id", "tyl")
+        out.append("/-- one step of the type peel in front of the `match type_layer` of `analyse_bindings` / `process_definition`:\n"
+                   "    `remove_modifier`, an `if let`/`match` on `TypeLayer::Array(inner, len)` (`sizedOnly`: the pattern is\n"
+                   "    `Array(inner, Some(len))`), a `remove_modifier` *inside* the array arm; `unknown` = the reader of\n"
+                   "    tools/gens/c05.py did not understand the statements -/\n"
+                   "inductive PeelOp where\n  | removeModifier\n  | takeArray (sizedOnly : Bool)\n  | removeModifierAfterArray\n  | unknown\n"
+                   "  deriving DecidableEq, Repr, Inhabited\n\n")
+        out.append(f"/-- hlsl `analyse_bindings`, GlobalVariable arm: operations between `decl.type_id` and `type_layer` -/\n"
+                   f"def hlslPeel : List PeelOp := {lean_ops(hops)}\n\n"
+                   f"/-- msl `analyse_bindings`, GlobalVariable arm -/\ndef mslPeel : List PeelOp := {lean_ops(mops)}\n\n"
+                   f"/-- `process_definition` (assign_api_bindings), GlobalVariable arm: operations between `decl.type_id` and `unmodified_tyl` -/\n"
+                   f"def allocPeel : List PeelOp := {lean_ops(aops)}\n\n"
+                   f"/-- `TypeRegistry::is_buffer_address`: operations between `id` and the layer it matches on -/\n"
+                   f"def bufferAddressTestPeel : List PeelOp := {lean_ops(bops)}\n\n")
+
         # facts about the DescriptorBinding literals (normalised source text)
         def binding_literals(body, which):
             lits = []
@@ -129,12 +313,9 @@ def register(gen, T):
                    "  bindlessLiteralFalse : Bool\n  staticSamplerFromDecl : Bool\n  staticSamplerNone : Bool\n"
                    "  countLiteralOne : Bool\n  countIsArrayLenOrOne : Bool\n  deriving DecidableEq, Repr\n\n")
 
-        def facts(name, lit, nbody, slot_var, guard_rx, register_rx):
+        def facts(name, lit, nbody, slot_var, guard_rx, register_rx, pl=None):
             count_var = lit["descriptor_count"] == "descriptor_count"
-            count_rule = bool(re.search(
-                r'let \(unmodified_id, descriptor_count\) = if let ir::TypeLayer::Array\(inner, len\) = [a-z_\.]*module\.type_registry\.get_type_layer\(unmodified_id\) '
-                r'\{ let unmodified_id = [a-z_\.]*module\.type_registry\.remove_modifier\(inner\); let len = len\.map\(\|v\| v as u32\); \(unmodified_id, len\) \} '
-                r'else \{ \(unmodified_id, Some\(1\)\) \};', nbody))
+            count_rule = pl is not None and pl.count.get(lit["descriptor_count"]) == ("len as u32", "Some(1)")
             vals = {
                 "locationIsApiSlotLocation": lit["api_binding"] == f"{slot_var}.location",
                 "groupIsApiSlotSet": bool(re.search(register_rx, nbody)),
@@ -152,9 +333,9 @@ def register(gen, T):
         out.append(facts("hlslCbufferEntry", cb, nhb, "api_slot", r'if let Some\(api_slot\) = cb\.api_binding \{',
                          r'context\.register_binding\(api_slot\.set, binding\)'))
         out.append(facts("hlslGlobalEntry", gl, nhb, "api_slot", r'if let Some\(api_slot\) = decl\.api_slot \{',
-                         r'context\.register_binding\(api_slot\.set, binding\)'))
+                         r'context\.register_binding\(api_slot\.set, binding\)', hpl))
         out.append(facts("mslGlobalEntry", ml[0], nmb, "api_slot", r'if let Some\(api_slot\) = decl\.api_slot \{',
-                         r'layout\.register_binding\(api_slot\.set, binding, \*id\)'))
+                         r'layout\.register_binding\(api_slot\.set, binding, \*id\)', mpl))
         out.append(f"def hlslCbufferDescType : Option DescT := "
                    + (f"some .{cb['descriptor_type'].split('::')[1]}" if cb['descriptor_type'].startswith('DescriptorType::') else "none") + "\n")
         rej = re.search(r'ir::RootDefinition::ConstantBuffer\(_\) => \{ return Err\(GenerateError::ConstantBuffersNotSimplified\); \}', nmb)
@@ -422,6 +603,36 @@ def register(gen, T):
         out.append("/-- syntactic facts about parse_pipeline / add_stage and about where reported names come from -/\nstructure FrontFacts where\n"
                    + "".join(f"  {k} : Bool\n" for k in ffacts) + "  deriving DecidableEq, Repr\n\n")
         out.append("def frontFacts : FrontFacts := { " + ", ".join(f"{k} := {b(v)}" for k, v in ffacts.items()) + " }\n\n")
+        def count_ok(pl, lit, want):
+            cv = lit["descriptor_count"]
+            return cv in pl.count and pl.count[cv] == want
+
+        tyreg = normws(fn_body(ir_types, "register_type"))
+        gt = normws(fn_body(T.src("typer/src/typer/globals.rs"), "parse_globaltype"))
+        td = normws(fn_body(T.src("typer/src/typer/types.rs"), "parse_rootdefinition_typedef"))
+        dc = normws(fn_body(T.src("typer/src/typer/declarations.rs"), "parse_declarator"))
+        mk = normws(fn_body(ir_types, "make_const"))
+        pfacts = {
+            # descriptor_count: the array length (as u32) when an array layer was taken, Some(1) otherwise
+            "hlslCountIsLenOrOne": count_ok(hpl, gl_lit := hl[1], ("len as u32", "Some(1)")),
+            "mslCountIsLenOrOne": count_ok(mpl, ml[0], ("len as u32", "Some(1)")),
+            # the allocator: array_len = Some(len) / None, array_count = array_len.unwrap_or(1) as u32
+            "allocLenIsLenOrNone": apl.count.get("array_len") == ("Some(lenValue)", "None")
+                                   and bool(re.search(r'let array_count = array_len\.unwrap_or\(1\) as u32;', normws(pd))),
+            "allocBufferAddressTestOnDeclaredType": bool(re.search(r'if params\.support_buffer_address && module\.type_registry\.is_buffer_address\(decl\.type_id\)', normws(pd))),
+            # TypeRegistry::register_type refuses a modifier layer directly around a modifier layer
+            "modifierNeverWrapsModifier": bool(re.search(r'TypeLayer::Modifier\(modifier, inner\) => \{ assert!\(!self\.get_type_layer\(inner\)\.is_modifier\(\)\);', tyreg)),
+            # every extern global is implicitly const: the outermost layer of its base type is a modifier
+            "externGlobalsAreConst": bool(re.search(r'if global_storage == ir::GlobalStorage::Extern \{ ty = context\.module\.type_registry\.make_const\(ty\); \}', gt))
+                                     and bool(re.fullmatch(r'let \(base, mut modifier\) = self\.extract_modifier\(id\); if modifier\.is_const \{ id \} else \{ modifier\.is_const = true; self\.register_type\(TypeLayer::Modifier\(modifier, base\)\) \}', mk)),
+            # a typedef names the type id its declarator builds over the parsed source type: array layers of a typedef sit
+            # *inside* whatever a later use wraps around the name
+            "typedefNamesTheDeclaredTypeId": bool(re.search(r'let base_type = parse_type\(&td\.source, context\)\?; .*let \(type_id, scoped_name\) = parse_declarator\(&td\.declarator, base_type, None, false, context\)\?;.*context\.register_typedef\(name, type_id\)\?;', td)),
+            "declaratorWrapsArrayLayersOutside": bool(re.search(r'current_type = context \.module \.type_registry \.register_type\(ir::TypeLayer::Array\(current_type, constant_dim\)\);', dc)),
+        }
+        out.append("/-- facts around the type peel (what the count is, what the typer can build) -/\nstructure PeelFacts where\n"
+                   + "".join(f"  {k} : Bool\n" for k in pfacts) + "  deriving DecidableEq, Repr\n\n")
+        out.append("def peelFacts : PeelFacts := { " + ", ".join(f"{k} := {b(v)}" for k, v in pfacts.items()) + " }\n\n")
         out.append("def hlslReserved : List String := " + T.lean_list(lean_str(n) for n in reserved(hlsl_names, "hlsl")) + "\n\n")
         out.append("def mslReserved : List String := " + T.lean_list(lean_str(n) for n in reserved(msl_names, "msl")) + "\n")
         out.append(T.footer("MetaTables"))
